@@ -239,38 +239,55 @@ def level_perms(T, k, levels, p_pair, idx):
     return perms
 
 
+MODES2 = ["none", "min", "max", "mm", "mM", "Mm", "MM"]
+
+
+def family(out, seed, systems, nbs, prios, T, W, n_tab, cap, tabs="rot"):
+    """systems x brackets x priorities; the mode spec and the objective-rank tables rotate with a running
+    index so that every mode spec meets every priority / system and the second objective's permutation walks
+    through all T! orders (tabs="all": every permutation for every combination)."""
+    ps = all_perms(T)
+    for si, sname in enumerate(systems):
+        sy = SYSTEMS[sname]
+        levels = [lv for lv in moasha_levels(sy["grace"], sy["rf"], sy["max_t"], 0) if lv <= sy["R"]]
+        for nb in nbs:
+            for pi_, prio in enumerate(prios):
+                ci = len(out)
+                if tabs == "all":
+                    sel = list(range(len(ps)))
+                else:
+                    sel = [(seed * 5 + ci * 7 + 11 * j) % len(ps) for j in range(n_tab)]
+                for j, pi in enumerate(sel):
+                    p0 = (tuple(range(T)), tuple(reversed(range(T))), tuple(rotate(list(range(T)), 1 + j % (T - 1))))[
+                        (ci + j) % 3 if tabs != "all" else 0]
+                    mode = MODES2[(3 * si + pi_ + j + seed) % len(MODES2)]
+                    out.append(dict(sys=sname, brackets=nb, prio=prio, mode=mode, k=2, T=T, W=W,
+                                    perms=level_perms(T, 2, levels, (p0, ps[pi]), j), max_states=cap, seed=seed))
+
+
 def configs(tier, seed):
     out = []
     quick = tier == "quick"
     if quick:
         systems = ["g1rf2m4", "g1rf3m4", "g2rf2m5", "g2rf3m4", "g1rf2m5s"]
         prios = ["default", "nd1", "ndNL", "fix", "fix1", "lin", "linw"]
-        modes2 = ["none", "min", "max", "mm", "mM", "Mm", "MM"]
-        T, W, n_tab, cap = 4, 2, 3, 6000
+        family(out, seed, systems, (1,), prios, T=4, W=2, n_tab=4, cap=20000)
+        family(out, seed, systems, (2,), prios, T=4, W=2, n_tab=1, cap=20000)
+        family(out, seed, ["g1rf2m4"], (1,), ["default", "fix1", "lin"], T=5, W=2, n_tab=3, cap=20000)
     else:
         systems = list(SYSTEMS)
         prios = list(PRIOS)
-        modes2 = ["none", "min", "max", "mm", "mM", "Mm", "MM"]
-        T, W, n_tab, cap = 5, 3, 12, 150000
-    ci = 0
-    for sname in systems:
-        sy = SYSTEMS[sname]
-        for nb in (1, 2):
-            levels = sorted(set(moasha_levels(sy["grace"], sy["rf"], sy["max_t"], 0)))
-            levels = [lv for lv in levels if lv <= sy["R"]]
-            for prio in prios:
-                for mi, mode in enumerate(modes2):
-                    # tables: metric-0 permutation x metric-1 permutation; all T! second permutations are
-                    # walked over the (mode, prio, system) product, rotated by the seed
-                    p1s = rotate(all_perms(T), seed * 5 + ci * n_tab)
-                    for j in range(n_tab):
-                        p0 = tuple(range(T)) if j % 3 == 0 else (tuple(reversed(range(T))) if j % 3 == 1
-                                                                 else rotate(list(range(T)), 1 + j // 3))
-                        perms = level_perms(T, 2, levels, (tuple(p0), p1s[j % len(p1s)]), j)
-                        out.append(dict(sys=sname, brackets=nb, prio=prio, mode=mode, k=2, T=T, W=W,
-                                        perms=perms, max_states=cap, seed=seed))
-                    ci += 1
-    # single objective (the degenerate Pareto order is a total order) and three objectives
+        cap = 400000
+        family(out, seed, ["g1rf2m4", "g1rf3m4"], (1,), ["default", "nd1", "fix1", "lin"], T=5, W=2, n_tab=0,
+               cap=cap, tabs="all")
+        family(out, seed, systems, (1,), prios, T=5, W=3, n_tab=2, cap=cap)
+        family(out, seed, systems, (1,), prios, T=6, W=2, n_tab=4, cap=cap)
+        family(out, seed, systems, (2,), prios, T=4, W=2, n_tab=2, cap=cap)
+        family(out, seed, ["g1rf2m4", "g1rf3m4", "g2rf2m5", "g2rf3m4"], (2,), ["default", "fix1", "linw"],
+               T=4, W=3, n_tab=1, cap=cap)
+    T, W, cap = (4, 2, 20000) if quick else (5, 3, 400000)
+    ci = len(out)
+    # single objective (the Pareto order degenerates to a total order) and three objectives
     for sname in (["g1rf2m4"] if quick else ["g1rf2m4", "g1rf3m4", "g1rf2m8"]):
         sy = SYSTEMS[sname]
         levels = [lv for lv in moasha_levels(sy["grace"], sy["rf"], sy["max_t"], 0) if lv <= sy["R"]]
@@ -285,11 +302,11 @@ def configs(tier, seed):
                 ci += 1
         for prio in ("default", "ndNL", "fix1", "linw"):
             for mode in ("mMm", "MmM", "none"):
-                p = rotate(all_perms(T), seed * 3 + ci)
-                for j in range(1 if quick else 4):
-                    trip = (tuple(range(T)), p[j], p[(7 * j + 5) % len(p)])
-                    out.append(dict(sys=sname, brackets=1, prio=prio, mode=mode, k=3, T=T, W=W,
-                                    perms=level_perms(T, 3, levels, trip, j), max_states=cap, seed=seed))
+                p = rotate(all_perms(4), seed * 3 + ci)
+                for j in range(1 if quick else 3):
+                    trip = (tuple(range(4)), p[j], p[(7 * j + 5) % len(p)])
+                    out.append(dict(sys=sname, brackets=1, prio=prio, mode=mode, k=3, T=4, W=2 if quick else 3,
+                                    perms=level_perms(4, 3, levels, trip, j), max_states=cap, seed=seed))
                 ci += 1
     return out
 
